@@ -3,6 +3,8 @@ import NetqasmVerif.Driver.Codec
 import NetqasmVerif.Model.Asm
 import NetqasmVerif.Model.AsmText
 import NetqasmVerif.Gen.AsmPassTables
+import NetqasmVerif.Model.AsmFront
+import NetqasmVerif.Gen.AsmTables
 open Lean
 namespace NQ.Drv
 open NQ.Asm
@@ -142,6 +144,15 @@ def handleAsm (op : String) (j : Json) : Option Json :=
       ("arrays", arraysToJson s.mem.arrays), ("shmArrays", arraysToJson s.mem.shmArrays),
       ("shmRegs", Json.arr (s.mem.shmRegs.map (fun kv => ofInts [kv.1.bank, kv.1.idx, kv.2])).toArray),
       ("unit", Json.arr (s.mem.unit.map (fun (b : Bool) => Json.bool b)).toArray)])
+  else if op == "asm.parsetext" then do
+    -- `parse_text_protosubroutine(text)`: the whole text front end
+    let t ← (jField? j "text").bind jStr?
+    pure (match AsmFront.parseTextProto Gen.syms Gen.genericNames t.toList with
+      | .error e => Json.mkObj [("err", (e.name : Json))]
+      | .ok pr => Json.mkObj [
+          ("ver", match pr.version with | some (a, b) => ofInts [a, b] | none => Json.null),
+          ("app", match pr.appId with | some n => toJson n | none => Json.null),
+          ("ok", Json.arr (pr.cmds.map pcmdToJson).toArray)])
   else if op == "asm.macros" then do
     let ls ← (jField? j "lines").bind jArr?
     let ls ← ls.toList.mapM jStr?
